@@ -176,3 +176,54 @@ func VerifP_C18_Shift_File(i int) {
 	}
 	verifReach("end")
 }
+
+// C18 over two files: the same address is declared in both files of a path (an override file
+// redeclaring a variable); lines are inserted in the first file only. The collected targets, in
+// their order, and what hover says in the untouched file stay the same up to the shift.
+func VerifH_C18_Shift_TwoFiles() {
+	main := "variable \"v\" {\n  type = string\n}\n"
+	over := "# override\n\nvariable \"v\" {\n  type = number\n}\nout \"o\" {\n  value = var.v\n}\n"
+	verifShiftSeedLen = len(main)
+	A := verifParseHCL(main, fa)
+	B := verifStretch(main, fb, 0, 2)
+	mk := func(name string, f *hcl.File) (*Decoder, *PathDecoder, *PathContext) {
+		pc := &PathContext{Schema: verifSchemas(2), Files: map[string]*hcl.File{name: f, "o.tf": verifParseHCL(over, "o.tf")}, Functions: verifFunctions()}
+		d := NewDecoder(&verifPathReader{paths: map[string]*PathContext{"dir": pc}})
+		d.SetContext(NewDecoderContext())
+		pd, _ := d.Path(lang.Path{Path: "dir"})
+		if ts, err := pd.CollectReferenceTargets(); err == nil {
+			pc.ReferenceTargets = ts
+		}
+		if os, err := pd.CollectReferenceOrigins(); err == nil {
+			pc.ReferenceOrigins = os
+		}
+		return d, pd, pc
+	}
+	_, da, pa := mk(fa, A)
+	_, db, pb := mk(fb, B)
+	ra, rb := pa.ReferenceTargets, pb.ReferenceTargets
+	verifAssert(len(ra) == len(rb), "C18:targets-count-same")
+	for k := range ra {
+		if k < len(rb) {
+			verifAssert(ra[k].Addr.String() == rb[k].Addr.String(), "C18:target-address-same")
+			verifAssert(ra[k].Type.Equals(rb[k].Type), "C18:target-order-same-across-files")
+			if ra[k].RangePtr != nil && rb[k].RangePtr != nil {
+				if ra[k].RangePtr.Filename == "o.tf" {
+					verifAssert(verifSameRange(*ra[k].RangePtr, *rb[k].RangePtr), "C18:target-in-untouched-file-unchanged")
+				} else {
+					verifAssert(verifMoved(*ra[k].RangePtr, *rb[k].RangePtr), "C18:target-range-moved")
+				}
+			}
+		}
+	}
+	// hover on the reference written in the untouched file
+	q := hcl.Pos{Line: 7, Column: 13, Byte: 67}
+	ha, ea := da.HoverAtPos(context.Background(), "o.tf", q)
+	hb, eb := db.HoverAtPos(context.Background(), "o.tf", q)
+	verifAssert((ea == nil) == (eb == nil), "C18:hover-error-same")
+	verifAssert((ha == nil) == (hb == nil), "C18:hover-presence-same")
+	if ha != nil && hb != nil {
+		verifAssert(ha.Content.Value == hb.Content.Value, "C18:hover-in-untouched-file-same")
+	}
+	verifReach("end")
+}
